@@ -223,8 +223,13 @@ class GridSpec:
         )
         bbox = geopolygon.boundingbox
 
+        if geopolygon.is_empty:
+            return  # bounds of an empty geometry are NaN
+
         for tile_index, tile_geobox in self.tiles(bbox, geobox_cache):
-            if not geopolygon.disjoint(tile_geobox.extent):
+            extent = tile_geobox.extent
+            # same as bounding box query: contact along the edge or corner only does not count
+            if geopolygon.intersects(extent) and not geopolygon.touches(extent):
                 yield (tile_index, tile_geobox)
 
     def __str__(self) -> str:
